@@ -76,7 +76,7 @@ impl Check for C16 {
     }
     fn cases(&self, thorough: bool) -> usize {
         if thorough {
-            100_000
+            40_000
         } else {
             3_000
         }
